@@ -575,7 +575,7 @@ def main(tier, seed):
                                 dict(nsub=2, compressed=False, vmap=[0, 1], distinct=True)),
                                ('nested-delayed-u3', list(BM.nested_delayed(2, 2, 1, 3, colliding_only=True)),
                                 dict(nsub=3, compressed=False, vmap=[0, 1, 2], distinct=True)),
-                               ('trailing-class33-u1', list(BM.trailing_class33(L)), dict(nsub=1, compressed=False, distinct=True)),
+                               ('trailing-class33-u1', list(BM.trailing_class33(L)) + list(BM.trailing_class33_after_chain(L)), dict(nsub=1, compressed=False, distinct=True)),
                                ('trailing-class33-c2', list(BM.trailing_class33(L)), dict(nsub=2, compressed=True, distinct=True)),
                                ('data-not-present-spans', dnp_structs(), dict(nsub=1, compressed=False, ambiguous_ok=True)),
                                ('data-not-present-spans-c2', dnp_structs(), dict(nsub=2, compressed=True, ambiguous_ok=True))):
